@@ -4,6 +4,8 @@
 
 package geometry
 
+import "math"
+
 type Rect struct {
 	Min, Max Point
 }
@@ -24,7 +26,17 @@ func (rect Rect) Clockwise() bool {
 }
 
 func (rect Rect) Center() Point {
-	return Point{(rect.Max.X + rect.Min.X) / 2, (rect.Max.Y + rect.Min.Y) / 2}
+	return Point{midpoint(rect.Min.X, rect.Max.X), midpoint(rect.Min.Y, rect.Max.Y)}
+}
+
+// midpoint is (a+b)/2, halving first when the sum of two finite values
+// overflows.
+func midpoint(a, b float64) float64 {
+	sum := a + b
+	if math.IsInf(sum, 0) {
+		return a/2 + b/2
+	}
+	return sum / 2
 }
 
 func (rect Rect) Area() float64 {
